@@ -32,7 +32,7 @@ ASSUMPTIONS = [
     "only default ignore patterns (custom patterns: C12); regular files and directories only",
     "names removed by a mutation are not reused by another entry of a different type in the same case",
 ]
-BUDGET = {"quick": (220, 4), "thorough": (8000, 16)}
+BUDGET = {"quick": (220, 4), "thorough": (20000, 16)}
 REQUIRED = ["unchanged", "altered", "missing_file", "missing_dir", "new_file", "nested_mutation", "combined", "ignored_only", "per_file_enum"]
 
 P1 = {
